@@ -19,7 +19,7 @@
    changes, all other elements and their order stay"). *)
 From Coq Require Import List ZArith Bool Arith Lia.
 From SC Require Import Base.Res Base.PyList Inst.Heap Inst.ClassTable Inst.Model Inst.Canon Inst.Abs
-  Inst.SpecHelpers Inst.ElemProofs Inst.RefineProofs Inst.CopyProofs Inst.ElemRefine Inst.ElemRefine2.
+  Inst.SpecHelpers Inst.ElemProofs Inst.RefineProofs Inst.CopyProofs Inst.ElemRefine Inst.ElemRefine2 Inst.ElemRefine3.
 Import ListNotations.
 Open Scope nat_scope.
 
@@ -244,6 +244,68 @@ Proof.
   exact (without_item_list_inplace_refines ct h0 l a c d k sp s lc xs ity Hl Hc Ha Hd Hfz Hni Hty Hdep Hfld Hlc Hxs Hflat Hsh voi bi Hv).
 Qed.
 
+(* PROVED (C06_list_transform_item_refines_partial, C06_list_update_item_refines_partial):
+   transform_<item>(target, f) and update_<item>(target, new), in place, on a List attribute
+   holding PROPER scalars (no sentinel objects inside the list) of every length and content:
+     target     any scalar but MISSING (for which the documentation is silent), by value / by
+                index / `_by_index` omitted, present or absent (ValueError / IndexError / TypeError)
+     transform  none, or a pool function that maps scalars to scalars (identity, +z, constant)
+                or raises; its TypeError / user error is part of the statement; the transformed
+                element must have the element type (ValueError)
+     update     a new proper scalar (no item preparer, no spec element type), or none
+                (MISSING / EMPTY / UNCHANGED: the element stays and is re-validated)
+   State and error class agree with spec_helper; on an error the heap is untouched.
+   GUARD ident_on_eq (only when the target is addressed BY VALUE and the old element is
+   used, i.e. transform_<item>, or update_<item> without a new value): every element == to
+   the target is the very same scalar.  Without it the statement is FALSE in the model and
+   in the implementation: the extractor hands the ARGUMENT, not the stored element, to the
+   value procedure (see C06_by_value_transforms_argument_refuted below). *)
+Theorem C06_list_transform_item_refines_partial :
+  forall ct h0 l a c d k sp s lc xs ity,
+  nth_error (heap s) l = Some (OInst c d) -> lookup_cls ct c = Some k -> lookup_attr k a = Some sp ->
+  NoDup (map fst d) -> c_frozen k = false -> no_inval k ->
+  a_ty sp = TList ity -> ty_depth ity < FUEL ->
+  assoc a d = Some (VRef lc) -> nth_error (heap s) lc = Some (OList xs) -> forallb vscalar xs = true ->
+  flat_fields (heap s) d -> (forall b w, In (b, w) d -> b <> a -> w <> VRef lc) ->
+  forall voi fo bi,
+  nonref voi = true -> is_missing voi = false -> fail_at s = None ->
+  match fo with Some f => pool_fn f = true | None => True end ->
+  (by_index_rule ct ity (abs0 voi) bi = false -> ident_on_eq ct xs voi = true) ->
+  let h := mkh [voi] true true VMissing false bi None [] fo in
+  let ah := mkah [abs0 voi] true true AMissing false bi None [] fo in
+  match run_helper ct l (HTransformItem a) h s with
+  | (Ok r, s') => r = VRef l /\
+                  spec_helper ct h0 (absv (heap s) (VRef l)) (STransformItem a) ah = SOk (absv (heap s') (VRef l))
+  | (Err e, s') => spec_helper ct h0 (absv (heap s) (VRef l)) (STransformItem a) ah = SErr e /\ heap s' = heap s
+  end.
+Proof.
+  intros ct h0 l a c d k sp s lc xs ity Hl Hc Ha Hd Hfz Hni Hty Hdep Hfld Hlc Hxs Hflat Hsh voi fo bi Hv Hm Hfa Hfo Hid.
+  exact (transform_item_list_inplace_refines ct h0 l a c d k sp s lc xs ity Hl Hc Ha Hd Hfz Hni Hty Hdep Hfld Hlc Hxs Hflat Hsh voi fo bi Hv Hm Hfa Hfo Hid).
+Qed.
+
+Theorem C06_list_update_item_refines_partial :
+  forall ct h0 l a c d k sp s lc xs ity,
+  nth_error (heap s) l = Some (OInst c d) -> lookup_cls ct c = Some k -> lookup_attr k a = Some sp ->
+  NoDup (map fst d) -> c_frozen k = false -> no_inval k ->
+  a_ty sp = TList ity -> ty_depth ity < FUEL ->
+  assoc a d = Some (VRef lc) -> nth_error (heap s) lc = Some (OList xs) -> forallb vscalar xs = true ->
+  flat_fields (heap s) d -> (forall b w, In (b, w) d -> b <> a -> w <> VRef lc) ->
+  forall voi v bi,
+  a_prepare_item sp = None -> spec_of_ty_strict ity = None ->
+  nonref voi = true -> is_missing voi = false -> nonref v = true ->
+  (vscalar v = false -> by_index_rule ct ity (abs0 voi) bi = false -> ident_on_eq ct xs voi = true) ->
+  let h := mkh [voi; v] true true VMissing false bi None [] None in
+  let ah := mkah [abs0 voi; abs0 v] true true AMissing false bi None [] None in
+  match run_helper ct l (HUpdateItem a) h s with
+  | (Ok r, s') => r = VRef l /\
+                  spec_helper ct h0 (absv (heap s) (VRef l)) (SUpdateItem a) ah = SOk (absv (heap s') (VRef l))
+  | (Err e, s') => spec_helper ct h0 (absv (heap s) (VRef l)) (SUpdateItem a) ah = SErr e /\ heap s' = heap s
+  end.
+Proof.
+  intros ct h0 l a c d k sp s lc xs ity Hl Hc Ha Hd Hfz Hni Hty Hdep Hfld Hlc Hxs Hflat Hsh voi v bi Hp Hs Hv Hm Hnv Hid.
+  exact (update_item_list_inplace_refines ct h0 l a c d k sp s lc xs ity Hl Hc Ha Hd Hfz Hni Hty Hdep Hfld Hlc Hxs Hflat Hsh voi v bi Hp Hs Hv Hm Hnv Hid).
+Qed.
+
 (* non-vacuity: falsy elements, equal elements at several positions, negative index *)
 Example C06_examples :
   let ct := @nil cls in
@@ -272,4 +334,6 @@ Print Assumptions C06_set_remove.
 Print Assumptions C06_hashable_eq.
 Print Assumptions C06_list_with_item_refines_partial.
 Print Assumptions C06_list_without_item_refines_partial.
+Print Assumptions C06_list_transform_item_refines_partial.
+Print Assumptions C06_list_update_item_refines_partial.
 Print Assumptions C06_examples.
